@@ -44,11 +44,11 @@ class Obj:
 
 
 class Frame:
-    __slots__ = ('fn', 'blk', 'idx', 'regs', 'prev', 'dst', 'after')
+    __slots__ = ('fn', 'blk', 'idx', 'regs', 'prev', 'dst', 'after', 'allocas')
     def __init__(s, fn, blk, regs, dst, after=None):
-        s.fn = fn; s.blk = blk; s.idx = 0; s.regs = regs; s.prev = None; s.dst = dst; s.after = after
+        s.fn = fn; s.blk = blk; s.idx = 0; s.regs = regs; s.prev = None; s.dst = dst; s.after = after; s.allocas = []
     def clone(s):
-        f = Frame(s.fn, s.blk, dict(s.regs), s.dst, s.after); f.idx = s.idx; f.prev = s.prev; return f
+        f = Frame(s.fn, s.blk, dict(s.regs), s.dst, s.after); f.idx = s.idx; f.prev = s.prev; f.allocas = list(s.allocas); return f
 
 
 class State:
@@ -86,9 +86,10 @@ class Exec:
     def __init__(s, mod, fpmode='real', loop_bound=64, stubs=None, merge=False, feas_timeout_ms=20000, max_paths=200000):
         s.mod = mod; s.fpmode = fpmode; s.loop_bound = loop_bound; s.merge = merge; s.max_paths = max_paths
         s.stubs = dict(DEFAULT_STUBS); s.stubs.update(stubs or {})
-        s.solver = z3.Solver(); s.solver.set('timeout', feas_timeout_ms)
+        s.solver = z3.Solver(); s.solver.set('timeout', min(feas_timeout_ms, 5000))
         s.nq = 0; s.tq = 0.0; s.fresh = 0; s.axioms = []; s._lay = {}; s._ipdom = {}
-        s.npaths = 0; s.nmerged = 0; s.ninstr = 0
+        s.npaths = 0; s.nmerged = 0; s.ninstr = 0; s.fork_symbolic_memcpy = False
+        s.is_shared = None     # callable(st, ptr) -> bool: accesses to shared cells are scheduling points (llconc)
         s.called = set()
     # ---------- layout
     def resolve(s, t):
@@ -513,7 +514,8 @@ class Exec:
         if n == 0: return True
         if isinstance(dst, IntPtr) or isinstance(src, IntPtr): raise Unsupported('memcpy on flat region')
         if not (s.check_access(st, dst, n, 'memcpy-dst') and s.check_access(st, src, n, 'memcpy-src')): return False
-        if not (isinstance(dst.off, int) and isinstance(src.off, int)): raise Unsupported('memcpy symbolic offset')
+        if not (isinstance(dst.off, int) and isinstance(src.off, int)):
+            return s.memcpy_elementwise(st, dst, src, n)
         so = st.objs[src.obj]; do = st.objs[dst.obj]
         moved = {}
         covered = 0
@@ -536,6 +538,22 @@ class Exec:
                 raise HarnessError('uninitialised read at %d' % off)
             do.default = dflt
         for k, c in moved.items(): do.cells[dst.off + k] = c
+        return True
+    def memcpy_elementwise(s, st, dst, src, n):
+        """concrete length, symbolic offset(s): copy cell by cell through ite-chain loads/stores (uniform cell size required)"""
+        so = st.objs[src.obj]; do = st.objs[dst.obj]
+        sizes = {c[1] for c in so.cells.values()} | {c[1] for c in do.cells.values()}
+        if len(sizes) != 1: raise Unsupported('memcpy with symbolic offset over non-uniform cells (%s -> %s)' % (so.name, do.name))
+        es = sizes.pop()
+        if n % es: raise Unsupported('memcpy length not a multiple of the cell size')
+        sample = next(iter(so.cells.values()))[0]
+        t = FpT('double') if (z3.is_expr(sample) and (z3.is_real(sample) or z3.is_fp(sample)) and es == 8) else FpT('float') if (z3.is_expr(sample) and (z3.is_real(sample) or z3.is_fp(sample))) else IntT(8 * es)
+        vals = []
+        for k in range(n // es):
+            v = s.load_scalar(st, Ptr(src.obj, s.addoff(src.off, None, k * es)), t)
+            vals.append(v)
+        for k, v in enumerate(vals):
+            if not s.store(st, Ptr(dst.obj, s.addoff(dst.off, None, k * es)), t, v, check=False): return False
         return True
     def memset(s, st, dst, val, n):
         n = z3.simplify(n)
@@ -567,7 +585,11 @@ class Exec:
     # ---------- solver
     def feasible(s, pc):
         t = time.time(); s.solver.push(); s.solver.add(*s.axioms); s.solver.add(*pc); r = s.solver.check(); s.solver.pop(); s.nq += 1; s.tq += time.time() - t
-        if r == z3.unknown: raise Unsupported('solver unknown on path feasibility')
+        if r == z3.unknown:
+            from . import smt
+            t = time.time(); rr, _, info = smt.solve(list(s.axioms) + list(pc), 90, z3_first_s=1); s.tq += time.time() - t
+            if rr == 'unknown': raise Unsupported('solver unknown on path feasibility')
+            return rr == 'sat'
         return r == z3.sat
     # ---------- CFG helpers (ipdom for merging)
     def ipdoms(s, fn):
@@ -701,9 +723,9 @@ class Exec:
             for st, c in zip(g[1:], conds[1:]):
                 # m := ite(c, st, m)
                 for fm, fs in zip(m.stack, st.stack):
-                    for r in fm.regs:
+                    for r in list(fm.regs):
                         a, b = fs.regs.get(r), fm.regs[r]
-                        if a is None: continue
+                        if a is None: del fm.regs[r]; continue
                         if a is not b: fm.regs[r] = s.ite(c, a, b)
                 for oid, om in m.objs.items():
                     os_ = st.objs[oid]
@@ -716,18 +738,20 @@ class Exec:
                 if m.flat is not None:
                     m.flat['mem'] = z3.If(c, st.flat['mem'], m.flat['mem'])
                 m.obls = m.obls + [o for o in st.obls if not any(o is x for x in m.obls)]
+                m.next_obj = max(m.next_obj, st.next_obj)
                 for k, v in st.loops.items(): m.loops[k] = max(m.loops.get(k, 0), v)
                 s.nmerged += 1
             m.pc = m.pc[:base_len] + [z3.Or(*conds)]
             out.append(m)
         return out
     def mergeable(s, a, b):
-        if len(a.stack) != len(b.stack) or a.log != b.log or a.next_obj != b.next_obj: return False
+        if len(a.stack) != len(b.stack) or a.log != b.log: return False
         if set(a.objs) != set(b.objs): return False
         for fa, fb in zip(a.stack, b.stack):
             if fa.fn is not fb.fn or fa.blk != fb.blk or fa.idx != fb.idx: return False
             for r, va in fa.regs.items():
                 vb = fb.regs.get(r)
+                if vb is None: continue      # defined on one side only: dead at the join (SSA dominance)
                 if isinstance(va, Ptr) and isinstance(vb, Ptr) and va.obj != vb.obj: return False
                 if type(va) is not type(vb) and not (z3.is_expr(va) and z3.is_expr(vb)): return False
         for oid, oa in a.objs.items():
@@ -765,14 +789,16 @@ class Exec:
         elif op == 'alloca':
             n = 1
             if a['n'] is not None: n = s.as_int(C(IntT(64), a['n']))
-            p = st.alloc(s.sizeof(a['ty']) * n, ('alloca', fr.fn.name, ins.dst)); fr.regs[ins.dst] = p
+            p = st.alloc(s.sizeof(a['ty']) * n, ('alloca', fr.fn.name, ins.dst)); fr.regs[ins.dst] = p; fr.allocas.append(p.obj)
         elif op == 'load':
             p = C(None, a['ptr'])
+            if s.is_shared is not None and s.yield_here(st, fr, p): return [Result('yield', st, info=ins.line)]
             v = s.load(st, p, a['ty'])
             if v is None: return [Result('memfault', st, info=ins.line)]
             fr.regs[ins.dst] = v
         elif op == 'store':
             p = C(None, a['ptr']); v = C(a['ty'], a['v'])
+            if s.is_shared is not None and s.yield_here(st, fr, p): return [Result('yield', st, info=ins.line)]
             if not s.store(st, p, a['ty'], v): return [Result('memfault', st, info=ins.line)]
         elif op == 'getelementptr':
             base = C(None, a['ptr']); fr.regs[ins.dst] = s.gep(st, a['base'], base, [(t, C(t, v)) for t, v in a['idx']])
@@ -801,6 +827,8 @@ class Exec:
         elif op == 'ret':
             v = None if a['v'] is None else C(a['ty'], a['v'])
             st.stack.pop()
+            if st.stack:
+                for oid in fr.allocas: st.objs.pop(oid, None)    # locals of the returning frame die
             if not st.stack: return [Result('return', st, v)]
             caller = st.stack[-1]
             if fr.dst is not None: caller.regs[fr.dst] = v
@@ -826,12 +854,14 @@ class Exec:
             pass
         elif op == 'atomicrmw':
             p = C(None, a['ptr']); t = a['ty']; v = C(t, a['v'])
+            if s.is_shared is not None and s.yield_here(st, fr, p): return [Result('yield', st, info=ins.line)]
             old = s.load(st, p, t)
             if old is None: return [Result('memfault', st, info=ins.line)]
             new = {'add': lambda: old + v, 'sub': lambda: old - v, 'xchg': lambda: v, 'and': lambda: old & v, 'or': lambda: old | v}[a['rop']]()
             s.store(st, p, t, z3.simplify(new)); fr.regs[ins.dst] = old
         elif op == 'cmpxchg':
             p = C(None, a['ptr']); t = a['ty']; c = C(t, a['cmp']); n = C(t, a['new'])
+            if s.is_shared is not None and s.yield_here(st, fr, p): return [Result('yield', st, info=ins.line)]
             old = s.load(st, p, t)
             if old is None: return [Result('memfault', st, info=ins.line)]
             ok = old == c
@@ -841,6 +871,24 @@ class Exec:
         else:
             raise Unsupported('instr %s' % ins.line)
         return None
+    def yield_here(s, st, fr, p):
+        """scheduling point before an access to a shared cell; the access itself runs when the thread is resumed"""
+        if not s.is_shared(st, p): return False
+        if st.aux.get('skip_yield'):
+            st.aux['skip_yield'] = False; return False
+        fr.idx -= 1      # re-execute this instruction on resume
+        return True
+    def resume(s, st):
+        """continue a state that stopped at a scheduling point; returns the list of Results"""
+        results = []
+        st.aux['skip_yield'] = bool(st.aux.pop('at_yield', False)) if False else st.stack[-1].idx > 0 or st.stack[-1].blk != st.stack[-1].fn.entry
+        s.explore(st, None, results)
+        return results
+    def start(s, st, fname, args):
+        fn = s.mod.fns[fname]
+        regs = {n: a for (t, n), a in zip(fn.params, args)}
+        st.stack = [Frame(fn, fn.entry, regs, None)]
+        s.called.add(fname)
     def nsw_obl(s, st, op, x, y, ins):
         w = x.size()
         if op == 'add': ok = z3.BVAddNoOverflow(x, y, True) if hasattr(z3, 'BVAddNoOverflow') else None
@@ -993,7 +1041,9 @@ class Exec:
         if key.startswith(('llvm.lifetime', 'llvm.dbg', 'llvm.assume', 'llvm.experimental.noalias', 'llvm.stacksave', 'llvm.stackrestore', 'llvm.prefetch')): return None
         if key.startswith(('llvm.memcpy', 'llvm.memmove', 'llvm.memset')):
             what = 'memset' if key.startswith('llvm.memset') else 'memcpy'
-            symb = not z3.is_bv_value(z3.simplify(args[2])) or any(isinstance(p, Ptr) and not isinstance(p.off, int) for p in args[:2])
+            symlen = not z3.is_bv_value(z3.simplify(args[2]))
+            symoff = any(isinstance(p, Ptr) and not isinstance(p.off, int) for p in args[:2])
+            symb = symlen or (symoff and (what == 'memset' or s.fork_symbolic_memcpy))
             if symb and not any(isinstance(p, IntPtr) for p in args[:2]):
                 return s.mem_fork(st, what, args[0], args[1], args[2])
             ok = s.memcpy(st, args[0], args[1], args[2]) if what == 'memcpy' else s.memset(st, args[0], args[1], args[2])
@@ -1084,7 +1134,9 @@ def _stub_fmax(ex, st, args, ins):
 def _stub_libc_mem(what):
     def stub(ex, st, args, ins):
         fr = st.stack[-1]
-        symb = not z3.is_bv_value(z3.simplify(args[2])) or any(isinstance(p, Ptr) and not isinstance(p.off, int) for p in args[:2])
+        symlen = not z3.is_bv_value(z3.simplify(args[2]))
+        symoff = any(isinstance(p, Ptr) and not isinstance(p.off, int) for p in args[:2])
+        symb = symlen or (symoff and (what == 'memset' or ex.fork_symbolic_memcpy))
         a1 = args[1]
         if what == 'memset' and z3.is_expr(a1) and a1.size() != 8: a1 = z3.Extract(7, 0, a1)
         if symb and not any(isinstance(p, IntPtr) for p in args[:2]):
